@@ -1,6 +1,8 @@
 package core
 
 import (
+	"fmt"
+
 	"github.com/jsightapi/jsight-schema-core/rules/enum"
 
 	"github.com/jsightapi/jsight-api-core/directive"
@@ -27,11 +29,14 @@ func (core *JApiCore) buildRule(d *directive.Directive) *jerr.JApiError {
 		return nil
 	}
 
-	if !d.BodyCoords.IsSet() {
-		return nil
+	name := d.NamedParameter("Name")
+	if name == "" {
+		return d.KeywordError(fmt.Sprintf("%s (%s)", jerr.RequiredParameterNotSpecified, "Name"))
 	}
 
-	name := d.NamedParameter("Name")
+	if !d.BodyCoords.IsSet() {
+		return d.KeywordError(jerr.BodyIsEmpty)
+	}
 
 	r := enum.New(name, d.BodyCoords.Read())
 	if err := r.Check(); err != nil {
